@@ -41,6 +41,7 @@ func runC04(c *core.Ctx) {
 	h.snapshotOrder("C04.8 snapshot-order")
 	c.Clause("C04.9 a log kept across a restart agrees with the latest snapshot at the snapshot's index")
 	h.openStorageRebuild("C04.9 restart-rebuild")
+	h.clearLogResets("C04.10 clearLog-resets")
 }
 
 // staleTermNoEffect: in both leader-originated handlers every state-changing
@@ -78,6 +79,7 @@ func runC06(c *core.Ctx) {
 	c.Clause("C06.4 matchIndex raised only by a success reply for the acknowledged request")
 	h.matchIndexOnlyOnSuccess("C06.4 matchIndex")
 	h.pipelineRequestsAccounted("C06.4c pipeline-accounting")
+	h.acknowledgedIndexIsTheRequests("C06.4d acknowledged-index")
 	h.storageErrorsSurface("C06.5 storage-errors-surface", storageErrExempt)
 	h.leaderInitEstablishes("C06.3c voter-cache", "leader.numVoters")
 	h.configSetters("C06.3d config-setters")
